@@ -24,32 +24,32 @@ Rot(s, r) == IF Len(s) = 0 THEN s ELSE [i \in DOMAIN s |-> s[((i - 1 + r) % Len(
 RotDesc(d, r) ==
     [cattrs |-> Rot(d.cattrs, r),
      fields |-> [i \in DOMAIN d.fields |-> Rot(d.fields[i], r)],
-     methods |-> [i \in DOMAIN d.methods |-> [attrs |-> Rot(d.methods[i].attrs, r), code |-> Rot(d.methods[i].code, r)]],
+     methods |-> [i \in DOMAIN d.methods |-> [attrs |-> Rot(d.methods[i].attrs, r), code |-> Rot(d.methods[i].code, r), excend |-> d.methods[i].excend]],
      rcs |-> [i \in DOMAIN d.rcs |-> Rot(d.rcs[i], r)]]
 
 D1 == [cattrs |-> <<"SourceFile", "BootstrapMethods", "Xa">>,
        fields |-> << <<"ConstantValue", "Deprecated">>, <<>> >>,
-       methods |-> << [attrs |-> <<"Code", "Exceptions">>, code |-> <<"LineNumberTable", "StackMapTable">>],
-                      [attrs |-> <<"Signature">>, code |-> <<>>] >>,
+       methods |-> << [attrs |-> <<"Code", "Exceptions">>, code |-> <<"LineNumberTable", "StackMapTable">>, excend |-> TRUE],   \* an exception range up to the end of the code
+                      [attrs |-> <<"Signature">>, code |-> <<>>, excend |-> FALSE] >>,
        rcs |-> <<>>]
 D2 == [cattrs |-> <<"Record", "Signature", "RuntimeVisibleAnnotations">>,
        fields |-> << <<"RuntimeInvisibleAnnotations", "Signature", "Xf">> >>,
        methods |-> << [attrs |-> <<"Xm", "Code", "RuntimeVisibleTypeAnnotations">>,
-                       code |-> <<"Xc", "RuntimeInvisibleTypeAnnotations", "LocalVariableTable">>],
-                      [attrs |-> <<"Code", "Synthetic", "AnnotationDefault">>, code |-> <<>>] >>,
+                       code |-> <<"Xc", "RuntimeInvisibleTypeAnnotations", "LocalVariableTable">>, excend |-> FALSE],
+                      [attrs |-> <<"Code", "Synthetic", "AnnotationDefault">>, code |-> <<>>, excend |-> FALSE] >>,
        rcs |-> << <<"Signature", "Xr">>, <<>> >>]
 D3 == [cattrs |-> <<>>, fields |-> <<>>, methods |-> <<>>, rcs |-> <<>>]
 D4 == [cattrs |-> <<"InnerClasses", "Deprecated", "NestMembers">>,
        fields |-> << <<"Synthetic", "RuntimeVisibleTypeAnnotations">>, <<"Xf">> >>,
        methods |-> << [attrs |-> <<"MethodParameters", "RuntimeVisibleParameterAnnotations", "Code">>,
-                       code |-> <<"LocalVariableTypeTable", "LineNumberTable", "Xc">>] >>,
+                       code |-> <<"LocalVariableTypeTable", "LineNumberTable", "Xc">>, excend |-> TRUE] >>,
        rcs |-> <<>>]
 
 D5 == [cattrs |-> <<"NestHost", "RuntimeInvisibleTypeAnnotations", "EnclosingMethod">>,
        fields |-> << <<"RuntimeVisibleAnnotations", "ConstantValue", "Signature">>, <<"Deprecated">> >>,
-       methods |-> << [attrs |-> <<"RuntimeInvisibleParameterAnnotations", "Exceptions", "RuntimeInvisibleAnnotations">>, code |-> <<>>],
+       methods |-> << [attrs |-> <<"RuntimeInvisibleParameterAnnotations", "Exceptions", "RuntimeInvisibleAnnotations">>, code |-> <<>>, excend |-> FALSE],
                       [attrs |-> <<"Code", "Signature", "Deprecated">>,
-                       code |-> <<"StackMapTable", "RuntimeVisibleTypeAnnotations", "LineNumberTable">>] >>,
+                       code |-> <<"StackMapTable", "RuntimeVisibleTypeAnnotations", "LineNumberTable">>, excend |-> FALSE] >>,
        rcs |-> <<>>]
 
 LenOf(name) ==
@@ -67,19 +67,19 @@ LenOf(name) ==
       [] name \in {"RuntimeVisibleTypeAnnotations", "RuntimeInvisibleTypeAnnotations"} -> 9
       [] name \in {"RuntimeVisibleParameterAnnotations", "RuntimeInvisibleParameterAnnotations"} -> 12
       [] OTHER -> 5
-Plain(name) == [name |-> name, len |-> LenOf(name), endref |-> name \in {"LocalVariableTable", "LocalVariableTypeTable"}, sub |-> <<>>]
+Plain(name) == [name |-> name, len |-> LenOf(name), endref |-> name \in {"LocalVariableTable", "LocalVariableTypeTable"}, sub |-> <<>>, excend |-> FALSE]
 Plains(ns) == [i \in DOMAIN ns |-> Plain(ns[i])]
-CodeAttr(ns) == [name |-> "Code", len |-> CodePre + AttrsSize(Plains(ns)), endref |-> FALSE, sub |-> Plains(ns)]
+CodeAttr(ns, excend) == [name |-> "Code", len |-> CodePre + (IF excend THEN ExcRow ELSE 0) + AttrsSize(Plains(ns)), endref |-> FALSE, sub |-> Plains(ns), excend |-> excend]
 RecordAttr(rcs) ==
     LET comps == [i \in DOMAIN rcs |-> [attrs |-> Plains(rcs[i])]]
-    IN [name |-> "Record", len |-> 2 + SumSeq([i \in DOMAIN comps |-> CompSize(comps[i])]), endref |-> FALSE, sub |-> comps]
+    IN [name |-> "Record", len |-> 2 + SumSeq([i \in DOMAIN comps |-> CompSize(comps[i])]), endref |-> FALSE, sub |-> comps, excend |-> FALSE]
 (* descriptor -> abstract class file *)
 BuildClass(d) ==
     [hdr |-> 8, pool |-> 40, mid |-> 8,
      fields |-> [i \in DOMAIN d.fields |-> [fixed |-> 6, attrs |-> Plains(d.fields[i])]],
      methods |-> [i \in DOMAIN d.methods |->
                     [fixed |-> 6, attrs |-> [j \in DOMAIN d.methods[i].attrs |->
-                        IF d.methods[i].attrs[j] = "Code" THEN CodeAttr(d.methods[i].code) ELSE Plain(d.methods[i].attrs[j])]]],
+                        IF d.methods[i].attrs[j] = "Code" THEN CodeAttr(d.methods[i].code, d.methods[i].excend) ELSE Plain(d.methods[i].attrs[j])]]],
      attrs |-> [j \in DOMAIN d.cattrs |-> IF d.cattrs[j] = "Record" THEN RecordAttr(d.rcs) ELSE Plain(d.cattrs[j])]]
 
 HasCode(d, i) == \E j \in DOMAIN d.methods[i].attrs : d.methods[i].attrs[j] = "Code"
@@ -132,6 +132,7 @@ PickShape ==
 PickMask ==
     /\ stage = "mask"
     /\ \E md \in (IF fam = "mask" THEN Plainest \cup Singles(descs[1]) \cup Pairs(descs[1], IF Tier = 0 THEN {"all"} ELSE {"all", "none"})
+                                         \cup {MDesc("none", {<<"class", "methods">>, <<"method", "code">>})}      \* the code and nothing optional of it
                   ELSE Plainest \cup {MDesc("all", {<<"method", "code">>}), MDesc("none", {<<"class", "fields">>, <<"class", "methods">>})}) :
           mdesc' = md
     /\ stage' = "decl"
